@@ -63,7 +63,7 @@ CHECKS = {
     "C10": dict(
         category="exploration", design_ref="DESIGN.md §3.9, §4 C10",
         technique="TLA+ exists-a-split semantics of IRDL operation definitions (OpDefVerify.tla) evaluated by TLC as reference for verify() and the generated accessors of dynamically created real op classes",
-        text="Seeded definitions (operand/result/region segments single/optional/variadic, constraints any/eq/shared type variable, options none/same-size/attribute-sized) become real classes through irdl_op_definition; raw instances (incl. missing, wrong-length, negative and non-summing size arrays) are verified for real and TLC decides Accepts by enumerating segment splits and variable bindings; constructor-built instances must verify; each accessor must return the segment of the unique split TLC computes.",
+        text="Seeded definitions (operand/result/region segments single/optional/variadic, constraints any/eq/shared type variable, options none/same-size/attribute-sized) become real classes through irdl_op_definition; raw instances (incl. missing, wrong-length, negative and non-summing size arrays) are verified for real and TLC decides Accepts by enumerating segment splits and variable bindings; constructor-built instances must verify; each accessor must return the segment of the unique split TLC computes. The segment structure of every IRDL operation of every registered dialect is checked one-sidedly against raw instances with arbitrary counts and size arrays: where TLC finds no admissible split, verify() must reject.",
         note="Trusted: OpDefVerify.tla; successor segments and attribute/property constraints other than the size arrays are not generated; definitions the library refuses at class creation are skipped."),
     "C09": dict(
         category="exploration", design_ref="DESIGN.md §3.9, §4 C09",
